@@ -5,8 +5,8 @@ usage:  /venv/bin/python harness/c16_mutants.py [worktree] [name-prefix ...]
 
 Creates (or reuses) a scratch git worktree of /repo, applies ONE textual edit of the anchored code at a time,
 runs `VERIF_REPO=<worktree> ./check C16 --seed 0` and prints how many violations were reported (the violation
-about the raw append, which the pinned tree always shows, is not counted).  The last entry, FIX, is the proposed
-repair of addField: the check must report 0 violations for it.
+about the raw append, which the pinned tree always shows, is not counted).  The last entry reverts the repaired addField
+(write at hSize + nFields*recSize) to the originally pinned open(..., "ab") append.
 """
 import os
 import subprocess
@@ -42,8 +42,8 @@ MUTANTS = [
     ('M6_header_int64', F, 'return [np.array([self.nVar, self.dim, *self.gridSizes], dtype=np.int32)]',
      'return [np.array([self.nVar, self.dim, *self.gridSizes], dtype=np.int64)]'),
     ('M7_times_offset', F, 'offset=0 if i == 0 else self.fSize)', 'offset=0 if i == 0 else self.fSize + self.tSize)'),
-    ('M8_add_swaps_time_field', F, RAW_ADD,
-     '        with open(self.fileName, "ab") as f:\n            field.tofile(f)\n            np.array(time, dtype=T_DTYPE).tofile(f)\n'),
+    ('M8_add_swaps_time_field', F, '            np.array(time, dtype=T_DTYPE).tofile(f)\n            field.tofile(f)\n',
+     '            field.tofile(f)\n            np.array(time, dtype=T_DTYPE).tofile(f)\n'),
     ('M9_coords_reversed', F, 'coords = [np.fromfile(f, dtype=np.float64, count=n) for n in gridSizes]',
      'coords = [np.fromfile(f, dtype=np.float64, count=n) for n in gridSizes[::-1]]'),
     ('M10_initialize_appends', F, 'with open(self.fileName, "w+b") as f:', 'with open(self.fileName, "ab") as f:'),
@@ -51,6 +51,8 @@ MUTANTS = [
     ('M12_time_index', F,
      '        idx = self.formatIndex(idx)\n        offset = self.hSize + idx * (self.tSize + self.fSize)\n        with open(self.fileName, "rb") as f:\n            t = np.fromfile',
      '        idx = self.formatIndex(idx)\n        offset = self.hSize + (idx + 1) * (self.tSize + self.fSize)\n        with open(self.fileName, "rb") as f:\n            t = np.fromfile'),
+    ('M13_add_memory_order', F, '            np.array(time, dtype=T_DTYPE).tofile(f)\n            field.tofile(f)\n',
+     '            f.write(np.array(time, dtype=T_DTYPE).tobytes() + field.tobytes(order="A"))\n'),
     ('B1_nloc_le', B, 'nLoc = n0 + 1 * (rank < nRest)', 'nLoc = n0 + 1 * (rank <= nRest)'),
     ('B2_iloc_gt', B, 'nRest * (rank >= nRest)', 'nRest * (rank > nRest)'),
     ('B3_hybrid_tiebreak', B, 'if dummy >= dummymax:', 'if dummy > dummymax:'),
@@ -58,7 +60,8 @@ MUTANTS = [
     ('B5_chatgpt_remainder', B, '            if nProcs > 1:', '            if nProcs > 2:'),
     ('B6_hybrid_rest', B, 'if rest > 1:', 'if rest > 2:'),
     ('B7_ranks_order', B, 'reshape(self.nBlocks, order=self.order)', 'reshape(self.nBlocks, order="F" if self.order == "C" else "C")'),
-    ('FIX_aligned_addField', F, RAW_ADD, FIXED_ADD),
+    # the repaired addField reverted to the originally pinned append: must be reported (append_after_torn_record)
+    ('R1_raw_append_again', F, '        with open(self.fileName, "r+b") as f:\n            f.seek(offset)\n', '        with open(self.fileName, "ab") as f:\n'),
 ]
 
 
@@ -82,8 +85,8 @@ def main():
         p = subprocess.run([os.path.join(VERIF, 'check'), 'C16', '--seed', '0'], env=env, stdout=subprocess.PIPE, stderr=subprocess.STDOUT, text=True)
         lines = p.stdout.splitlines()
         viol = [lines[i + 1].strip() for i, l in enumerate(lines) if l.startswith('VIOLATION') and i + 1 < len(lines)]
-        other = [v for v in viol if 'NOT read back' not in v]
-        print('MUTANT %s: %d violation(s) besides the raw-append finding (exit %d)%s' %
+        other = viol
+        print('MUTANT %s: %d violation(s) (exit %d)%s' %
               (name, len(other), p.returncode, ('; first: ' + other[0][:160]) if other else ''))
     subprocess.run(['git', '-C', wt, 'checkout', '-q', '--', '.'], check=True)
     print('remove the worktree with: git -C /repo worktree remove --force ' + wt)
